@@ -126,7 +126,7 @@ def optterms(rep, tier):
         key = hashlib.sha1(f1.read() + f2.read() + json.dumps([IN_SHAPES, SHAPE_POOL, depth]).encode()).hexdigest()[:20]
     cpath = os.path.join(cdir, "optterms_%s.json" % key)
     d = common.workdir("c05ot")
-    nsh = 1 if depth == 2 else 16
+    nsh = 1           # depth 3: 11 327 terms, 27 k states, about 70 s with 8 workers
     with open(os.path.join(d, "MC_OT.tla"), "w") as f:
         f.write("---- MODULE MC_OT ----\nEXTENDS OptTerms\nMCIn == %s\nMCPool == {%s}\n====\n" % (common.tla_expr(IN_SHAPES), ", ".join(common.tla_expr(x) for x in SHAPE_POOL)))
 
@@ -156,7 +156,7 @@ def optterms(rep, tier):
 
         def one(sh):
             return common.run_tlc(os.path.join(d, "MC_OT.tla"), cfg("ot_%d" % sh, sh, ["CONSTRAINT Emit", "INVARIANT C05_RulesSoundHere", "PROPERTY C05_Measure"]),
-                                  workers=max(1, 16 // nsh), timeout=3000)
+                                  workers=8, timeout=3000)
         bad = False
         with cf.ThreadPoolExecutor(nsh) as ex:
             for sh, res in enumerate(ex.map(one, range(nsh))):
